@@ -266,6 +266,9 @@ func genRowsMode(t *rapid.T, mode string, plainO1 bool) [][]val.Val {
 	switch {
 	case large:
 		n = intRange(t, "nLarge", 160, 230)
+		if chance(t, "nHuge", 10) {
+			n = intRange(t, "nHugeN", 1000, 1500)
+		}
 	case mode == "medium":
 		n = intRange(t, "nMedium", 16, 120)
 	case chance(t, "emptyTable", 2):
